@@ -46,6 +46,25 @@ else is inherited from harness/translate.py, "one rule per construct, reject wha
               `{k: v for … in …}` -> pyForM … pyDictPut; `itertools.product(dom, repeat=n)` -> pyProduct;
               `{}` / `[{}]` / `{None: [{}]}` where the expected type is known (registry `typed` gives the type hint of a local)
   results     `a if c else b` of a dict and a list of dicts where a `Brute.Sol` is expected -> Sol.one / Sol.many
+
+Shape normalisations (registry `normalize=(step, …)`; exact, purely syntactic rewritings of the function's AST before it is
+rendered, each with its side conditions in its docstring below; none looks at what the code computes; on the unchanged /repo
+none of them applies, the generated files are byte-identical):
+  inline      `x = <display of numbers / strings / never re-bound parameters, possibly `a if p else b`>` assigned once at the
+              top level -> written where `x` is read (hoisted loop-invariant display: `domain = (1, -1) if spin else (0, 1)`)
+  pack        two locals only ever stored together by `a, b = e1, e2` -> ONE tuple local (`best_val, best_sol` is `best`)
+  helper      calls of a private helper of the same file / of a nested `def` (closure) are replaced by its body: as an
+              expression when the helper is `return E` / `if c: return A … return B`, as statements when every exit is a
+              `return` in tail position (`T = h(…)`, also inside `try`) or when it has no `return` (`h(…)` as a statement)
+  fission     `P, Q = [], []; for x in k: (P.append(eP) if c else Q.append(eQ))` -> two filtered comprehensions
+  setcomp     `{e for …}` -> `set(e for …)`
+  alias       `X = o.d.get(K); if X: … X …` -> `if o.d.get(K, []): … o.d[K] …` (a local that only caches the stored list)
+Further rules added for reshaped sources: `zip(a, b)` of two lists -> List.zip; `dict(pairs)` label -> number is an
+assignment; `[e for x in l if c]` with a raising `e` -> List.mapM over List.filter; `tuple(list of labels)`;
+`getattr(model, attr, S)` with a module-private sentinel `S = object()` -> an Option (`is S` / `is not S` narrow it);
+`res.update((k, v) for x in src if c)` on an info dict -> the loop of item assignments; `qv` / `qv.utils` as values
+(PyModule) and `getattr(module, t)` -> pyModuleClass; `getattr(…)(terms)`; `info.get(key)` with one argument; `if X:` on a
+local that is None or a natural number; `a, b = e1, e2` as the re-assignment in an `except` body.
 """
 import ast
 from .. import translate as T
@@ -83,6 +102,7 @@ STR = Simple("String", "String")
 KINDT = Simple("Kind", "Kind")                  # a qubovert class, by its kind (also: its __name__)
 INFOVAL = Simple("InfoVal", "InfoVal")
 METHOD = Simple("RelMethod", "Rel")             # a bound add_constraint_<rel>_zero method, by its relation
+MODULE = Simple("PyModule", "PyModule")         # `qv` or `qv.utils` (create_from_info looks the class up in one of them)
 
 PARAM_TYPES.update({
     "Info": lambda: INFO, "MObj": lambda: MOBJ,
@@ -126,8 +146,627 @@ def cont_wrap(cont):
 MUTATING_METHODS = {"update", "append", "pop", "setdefault", "add", "clear", "set_mapping"}
 
 
+# ------------------------------------------------------------------------------------------------- shape normalisation
+# Purely syntactic, exact rewritings of the function's AST before it is rendered (registry `normalize=True`).  Each one
+# maps a shape onto the shape the translator already renders, so that a harmless reshaping yields the SAME Lean term; none
+# of them looks at what the code computes.
+
+def _stores(fnode, name):
+    return [x for x in ast.walk(fnode) if isinstance(x, ast.Name) and x.id == name and isinstance(x.ctx, (ast.Store, ast.Del))]
+
+
+def _in_nested_scope(fnode, names):
+    """a name of `names` occurs inside a nested def / lambda / class, or is declared global / nonlocal"""
+    for x in ast.walk(fnode):
+        if x is not fnode and isinstance(x, (ast.FunctionDef, ast.AsyncFunctionDef, ast.Lambda, ast.ClassDef)):
+            if any(isinstance(y, ast.Name) and y.id in names for y in ast.walk(x)):
+                return True
+        if isinstance(x, (ast.Global, ast.Nonlocal)) and set(x.names) & set(names):
+            return True
+    return False
+
+
+def _params(fnode):
+    a = fnode.args
+    return {x.arg for x in a.posonlyargs + a.args + a.kwonlyargs} | ({a.vararg.arg} if a.vararg else set()) | \
+        ({a.kwarg.arg} if a.kwarg else set())
+
+
+def _const_display(n, fnode):
+    """a number / a never re-assigned parameter / a tuple of such / `a if p else b` with `p`, `not p` a never re-assigned
+    parameter: evaluating it has no effect, cannot depend on where in the function it is evaluated, and gives an immutable value"""
+    if isinstance(n, ast.Constant):
+        return isinstance(n.value, (int, float, str)) and not isinstance(n.value, bool)
+    if isinstance(n, ast.UnaryOp) and isinstance(n.op, ast.USub):
+        return isinstance(n.operand, ast.Constant) and _const_display(n.operand, fnode)
+    if isinstance(n, ast.Name):
+        return isinstance(n.ctx, ast.Load) and n.id in _params(fnode) and not _stores(fnode, n.id)
+    if isinstance(n, ast.Tuple):
+        return bool(n.elts) and all(_const_display(x, fnode) for x in n.elts)
+    if isinstance(n, ast.IfExp):
+        t = n.test.operand if isinstance(n.test, ast.UnaryOp) and isinstance(n.test.op, ast.Not) else n.test
+        return isinstance(t, ast.Name) and _const_display(t, fnode) and _const_display(n.body, fnode) \
+            and _const_display(n.orelse, fnode)
+    return False
+
+
+class _Subst(ast.NodeTransformer):
+    def __init__(self, table):
+        self.table = table
+
+    def visit_Name(self, n):
+        if isinstance(n.ctx, ast.Load) and n.id in self.table:
+            import copy
+            return ast.copy_location(copy.deepcopy(self.table[n.id]), n)
+        return n
+
+
+def inline_constant_locals(fnode):
+    """`x = E` at the top level of the function, `x` assigned nowhere else, every read of `x` in a later top-level
+    statement, `E` a `_const_display`: the statement is dropped and `E` is written where `x` is read (hoisted loop-invariant
+    display, e.g. `domain = (1, -1) if spin else (0, 1)` … `itertools.product(domain, repeat=N)`)"""
+    changed = True
+    while changed:
+        changed = False
+        for i, s in enumerate(fnode.body):
+            if not (isinstance(s, ast.Assign) and len(s.targets) == 1 and isinstance(s.targets[0], ast.Name)
+                    and isinstance(s.value, (ast.Tuple, ast.IfExp)) and _const_display(s.value, fnode)):
+                continue
+            x = s.targets[0].id
+            if x in _params(fnode) or len(_stores(fnode, x)) != 1 or _in_nested_scope(fnode, [x]):
+                continue
+            if any(isinstance(y, ast.Name) and y.id == x for b in fnode.body[:i] for y in ast.walk(b)):
+                continue
+            rest = [_Subst({x: s.value}).visit(b) for b in fnode.body[i + 1:]]
+            fnode.body[i:] = rest
+            changed = True
+            break
+    return fnode
+
+
+def pack_pairs(fnode, prefer=()):
+    """two locals `a`, `b` whose every store is one statement `a, b = e1, e2` (both stored together, in this order, from a
+    two-element display): they are the components of ONE tuple-valued local `p`:  `a, b = e1, e2` -> `p = e1, e2`,
+    a read of `a` -> `p[0]`, of `b` -> `p[1]`  (in both forms the right-hand side is evaluated completely, left to right,
+    before anything is stored; tuples are immutable).  `p` is the common prefix of the two names when that is a fresh
+    name (so that `best_val, best_sol` is `best`), else `_py_pack_<a>_<b>`."""
+    pairs = []
+    for s in ast.walk(fnode):
+        if isinstance(s, ast.Assign) and len(s.targets) == 1 and isinstance(s.targets[0], ast.Tuple) \
+                and len(s.targets[0].elts) == 2 and all(isinstance(x, ast.Name) for x in s.targets[0].elts) \
+                and isinstance(s.value, ast.Tuple) and len(s.value.elts) == 2 \
+                and not any(isinstance(x, ast.Starred) for x in s.value.elts):
+            p = (s.targets[0].elts[0].id, s.targets[0].elts[1].id)
+            if p[0] != p[1] and p not in pairs:
+                pairs.append(p)
+    used = {x.id for x in ast.walk(fnode) if isinstance(x, ast.Name)} | _params(fnode)
+    for a, b in pairs:
+        if a in _params(fnode) or b in _params(fnode) or _in_nested_scope(fnode, [a, b]):
+            continue
+        sites = [s for s in ast.walk(fnode) if isinstance(s, ast.Assign) and len(s.targets) == 1
+                 and isinstance(s.targets[0], ast.Tuple) and [getattr(x, "id", None) for x in s.targets[0].elts] == [a, b]
+                 and isinstance(s.value, ast.Tuple) and len(s.value.elts) == 2
+                 and not any(isinstance(x, ast.Starred) for x in s.value.elts)]
+        site_names = {id(x) for s in sites for x in s.targets[0].elts}
+        if any(id(x) not in site_names for x in _stores(fnode, a) + _stores(fnode, b)):
+            continue            # stored somewhere else too (alone, as a loop target, by `with … as`, …)
+        if any(isinstance(c, ast.comprehension) and any(isinstance(y, ast.Name) and y.id in (a, b) for y in ast.walk(c.target))
+               for c in ast.walk(fnode)):
+            continue
+        pre = ""
+        for ca, cb in zip(a, b):
+            if ca != cb:
+                break
+            pre += ca
+        pre = pre.rstrip("_")
+        name = pre if pre.isidentifier() and pre not in used and not pre.startswith("_py") else "_py_pack_%s_%s" % (a, b)
+        if name not in prefer:
+            # a name for which the registry holds a type hint of a pair (`typed`), when the function does not use it: the
+            # choice of the name has no meaning, it only lets the hint (the type of `{}` in `None, {}`) apply
+            free = [q for q in prefer if q not in used]
+            if free:
+                name = free[0]
+        if name in used:
+            continue
+        used.add(name)
+
+        class Pack(ast.NodeTransformer):
+            def visit_Assign(self, s):
+                self.generic_visit(s)
+                if s in sites:
+                    s.targets = [ast.copy_location(ast.Name(id=name, ctx=ast.Store()), s.targets[0])]
+                return s
+
+            def visit_Name(self, n):
+                if isinstance(n.ctx, ast.Load) and n.id in (a, b):
+                    return ast.copy_location(ast.Subscript(
+                        value=ast.copy_location(ast.Name(id=name, ctx=ast.Load()), n),
+                        slice=ast.copy_location(ast.Constant(value=0 if n.id == a else 1), n), ctx=ast.Load()), n)
+                return n
+
+        Pack().visit(fnode)
+        ast.fix_missing_locations(fnode)
+    return fnode
+
+
+class _Rename(ast.NodeTransformer):
+    def __init__(self, table):
+        self.table = table
+
+    def visit_Name(self, n):
+        if n.id in self.table:
+            return ast.copy_location(ast.Name(id=self.table[n.id], ctx=n.ctx), n)
+        return n
+
+
+def _tail_returns(stmts, target, arity):
+    """the statement list with every `return E` (which must be the last statement of its block, the blocks being the list
+    itself, the branches of a final `if`, and the body / handlers of a final `try` without else / finally) replaced by
+    `target = E`; None when the list has another shape (a return elsewhere, a path that falls off the end, …)"""
+    import copy
+    if not stmts:
+        return None
+    for i, s in enumerate(stmts[:-1]):
+        if any(isinstance(x, (ast.Yield, ast.YieldFrom, ast.Await)) for x in ast.walk(s)):
+            return None
+        if any(isinstance(x, ast.Return) for x in ast.walk(s)):
+            # early return:  `if c: …; return A` followed by REST  ==  `if c: …; return A` else: REST
+            if isinstance(s, ast.If) and not s.orelse:
+                a, b = _tail_returns(s.body, target, arity), _tail_returns(stmts[i + 1:], target, arity)
+                if a is None or b is None:
+                    return None
+                return stmts[:i] + [ast.copy_location(ast.If(test=s.test, body=a, orelse=b), s)]
+            return None
+    last = stmts[-1]
+    if isinstance(last, ast.Return):
+        if last.value is None:
+            return None
+        if arity is not None and not (isinstance(last.value, ast.Tuple) and len(last.value.elts) == arity
+                                      and not any(isinstance(x, ast.Starred) for x in last.value.elts)):
+            return None
+        return stmts[:-1] + [ast.copy_location(ast.Assign(targets=[copy.deepcopy(target)], value=last.value), last)]
+    if isinstance(last, ast.If):
+        a, b = _tail_returns(last.body, target, arity), _tail_returns(last.orelse, target, arity)
+        if a is None or b is None:
+            return None
+        return stmts[:-1] + [ast.copy_location(ast.If(test=last.test, body=a, orelse=b), last)]
+    if isinstance(last, ast.Try) and not last.orelse and not last.finalbody and last.handlers:
+        a = _tail_returns(last.body, target, arity)
+        hs = [_tail_returns(h.body, target, arity) for h in last.handlers]
+        if a is None or any(h is None for h in hs):
+            return None
+        handlers = [ast.copy_location(ast.ExceptHandler(type=h.type, name=h.name, body=hb), h)
+                    for h, hb in zip(last.handlers, hs)]
+        return stmts[:-1] + [ast.copy_location(ast.Try(body=a, handlers=handlers, orelse=[], finalbody=[]), last)]
+    return None
+
+
+def inline_tail_helper(fnode, module_src, registered):
+    """Calls of a private helper of the same file are replaced by the helper's body.  `h` must be a module-level function
+    defined once, not rebound, not decorated, not registered as a tied function, not recursive, with plain positional
+    parameters without defaults, without nested functions / yield; the call has no keyword / starred arguments.
+
+    * `T = h(a1, …, an)` (a statement, `T` a name or a tuple of distinct names): every exit of `h` must be a `return E` in
+      tail position (`_tail_returns`); each is written `T = E` (when `T` is a tuple every `E` must be a display of that many
+      elements, so that the unpacking cannot fail inside a `try` of the helper);
+    * `h(a1, …, an)` (an expression statement): `h` must contain no `return` (it falls off its end; the `None` is discarded).
+
+    A parameter whose argument is a plain name and which `h` never re-binds is renamed to that name (same object: item
+    assignments through it are the caller's); any other parameter becomes a fresh local assigned the argument before the
+    body (arguments are evaluated left to right before the body; evaluating a plain name has no effect, so only the order
+    among the non-name arguments matters, and it is kept).  The helper's other locals are renamed where they clash with a
+    name of the caller.  A free name of the helper must not be a local of the caller."""
+    import copy
+    tree = ast.parse(module_src)
+    defs = {}
+    for s in tree.body:
+        if isinstance(s, ast.FunctionDef):
+            defs.setdefault(s.name, []).append(s)
+    rebound = {x.id for s in tree.body if not isinstance(s, (ast.FunctionDef, ast.ClassDef, ast.AsyncFunctionDef))
+               for x in ast.walk(s) if isinstance(x, ast.Name) and isinstance(x.ctx, ast.Store)}
+    for s in tree.body:
+        if isinstance(s, (ast.Import, ast.ImportFrom)):
+            rebound |= {(a.asname or a.name).split(".")[0] for a in s.names}
+    caller_names = {x.id for x in ast.walk(fnode) if isinstance(x, ast.Name)} | _params(fnode)
+    caller_locals = {x.id for x in ast.walk(fnode) if isinstance(x, ast.Name) and isinstance(x.ctx, ast.Store)} | _params(fnode)
+    taken = set(caller_names)
+
+    # a nested `def` at the top level of the function (a closure: its free names are read, when it is called, in this very
+    # scope, which is where the inlined expression reads them): defined once, never re-bound, only ever called
+    nested = {}
+    for i, s in enumerate(fnode.body):
+        if isinstance(s, ast.FunctionDef):
+            nm = s.name
+            uses = [x for x in ast.walk(fnode) if isinstance(x, ast.Name) and x.id == nm]
+            callees = {id(x.func) for x in ast.walk(fnode) if isinstance(x, ast.Call)}
+            defs_nm = [x for x in ast.walk(fnode) if isinstance(x, (ast.FunctionDef, ast.ClassDef, ast.AsyncFunctionDef))
+                       and x.name == nm and x is not fnode]
+            before = any(isinstance(x, ast.Name) and x.id == nm for b in fnode.body[:i] for x in ast.walk(b))
+            if len(defs_nm) == 1 and nm not in _params(fnode) and not before and not s.decorator_list \
+                    and all(isinstance(x.ctx, ast.Load) and id(x) in callees for x in uses) \
+                    and not any(isinstance(x, ast.Name) and x.id == nm for x in ast.walk(s)):
+                nested[nm] = s
+
+    def helper_of(call):
+        if not (isinstance(call, ast.Call) and isinstance(call.func, ast.Name) and not call.keywords
+                and not any(isinstance(a, ast.Starred) for a in call.args)):
+            return None
+        if any(isinstance(x, (ast.NamedExpr, ast.Yield, ast.YieldFrom, ast.Await)) for a in call.args for x in ast.walk(a)):
+            return None                 # an argument that binds a name / suspends: evaluation order would matter
+        name = call.func.id
+        if name in nested:
+            h = nested[name]
+            a = h.args
+            if a.posonlyargs or a.kwonlyargs or a.defaults or a.vararg or a.kwarg or len(a.args) != len(call.args) \
+                    or any(isinstance(x, (ast.FunctionDef, ast.Lambda, ast.ClassDef, ast.Global, ast.Nonlocal, ast.Yield,
+                                          ast.YieldFrom, ast.AsyncFunctionDef)) for b in h.body for x in ast.walk(b)):
+                return None
+            return h
+        if len(defs.get(name, [])) != 1 or name in rebound or name in registered or name in caller_locals \
+                or name == fnode.name:
+            return None
+        h = defs[name][0]
+        a = h.args
+        if h.decorator_list or a.posonlyargs or a.kwonlyargs or a.defaults or a.vararg or a.kwarg \
+                or len(a.args) != len(call.args) \
+                or any(isinstance(x, (ast.FunctionDef, ast.Lambda, ast.ClassDef, ast.Global, ast.Nonlocal,
+                                      ast.Yield, ast.YieldFrom, ast.AsyncFunctionDef)) for b in h.body for x in ast.walk(b)) \
+                or any(isinstance(x, ast.Name) and x.id == name for x in ast.walk(h)):
+            return None
+        return h
+
+    def expand(s):
+        """the statements that replace `s`, or None"""
+        if isinstance(s, ast.Assign) and len(s.targets) == 1:
+            call, t = s.value, s.targets[0]
+            arity = None
+            if isinstance(t, ast.Tuple) and all(isinstance(x, ast.Name) for x in t.elts) \
+                    and len({x.id for x in t.elts}) == len(t.elts):
+                arity = len(t.elts)
+            elif not isinstance(t, ast.Name):
+                return None
+        elif isinstance(s, ast.Expr):
+            call, t, arity = s.value, None, None
+        else:
+            return None
+        h = helper_of(call)
+        if h is None:
+            return None
+        body = copy.deepcopy(h.body)
+        if body and isinstance(body[0], ast.Expr) and isinstance(body[0].value, ast.Constant) \
+                and isinstance(body[0].value.value, str):
+            body = body[1:]                                  # the docstring
+        if not body:
+            return None
+        params = [p.arg for p in h.args.args]
+        hlocals = {x.id for b in body for x in ast.walk(b) if isinstance(x, ast.Name) and isinstance(x.ctx, (ast.Store, ast.Del))}
+        hfree = {x.id for b in body for x in ast.walk(b) if isinstance(x, ast.Name)} - hlocals - set(params)
+        if hfree & caller_locals:
+            return None
+        tnames = {x.id for x in ast.walk(t) if isinstance(x, ast.Name)} if t is not None else set()
+
+        def fresh(x):
+            f = x
+            while f in taken or f in hlocals or f in params:
+                f += "_h"
+            taken.add(f)
+            return f
+
+        table, pre = {}, []
+        for pname, arg in zip(params, call.args):
+            if isinstance(arg, ast.Name) and pname not in hlocals:
+                table[pname] = arg.id
+            else:
+                table[pname] = pname if (pname not in taken and pname not in tnames) else fresh(pname)
+                taken.add(table[pname])
+                pre.append(ast.copy_location(ast.Assign(
+                    targets=[ast.copy_location(ast.Name(id=table[pname], ctx=ast.Store()), arg)], value=arg), s))
+        for x in sorted(hlocals - set(params)):
+            if x in taken or x in tnames or x in table.values():
+                table[x] = fresh(x)
+            else:
+                taken.add(x)
+        body = [_Rename(table).visit(b) for b in body]
+        if t is None:
+            if any(isinstance(x, ast.Return) for b in body for x in ast.walk(b)):
+                return None
+            return pre + body
+        new = _tail_returns(body, t, arity)
+        return None if new is None else pre + new
+
+    def rewrite(stmts):
+        out = []
+        for s in stmts:
+            e = expand(s)
+            if e is not None:
+                out.extend(e)
+                continue
+            for field in ("body", "orelse", "finalbody"):
+                if isinstance(getattr(s, field, None), list) and not isinstance(s, (ast.FunctionDef, ast.ClassDef, ast.Lambda)):
+                    setattr(s, field, rewrite(getattr(s, field)))
+            if isinstance(s, ast.Try):
+                for hd in s.handlers:
+                    hd.body = rewrite(hd.body)
+            out.append(s)
+        return out
+
+    # a helper that is ONE expression (`return E`, or a cascade of `if c: return A` … `return B` = `A if c else B`), called
+    # with plain names / constants (evaluating them has no effect, so it does not matter when they are evaluated): the call
+    # is replaced by that expression, written with a positive test (`A if not c else B` = `B if c else A`)
+    def as_expr(stmts):
+        if len(stmts) == 1 and isinstance(stmts[0], ast.Return) and stmts[0].value is not None:
+            return stmts[0].value
+        if stmts and isinstance(stmts[0], ast.If):
+            a = as_expr(stmts[0].body)
+            b = as_expr(stmts[0].orelse) if (stmts[0].orelse and len(stmts) == 1) else \
+                as_expr(stmts[1:]) if (not stmts[0].orelse and len(stmts) > 1) else None
+            if a is not None and b is not None:
+                t = stmts[0].test
+                if isinstance(t, ast.UnaryOp) and isinstance(t.op, ast.Not):
+                    return ast.copy_location(ast.IfExp(test=t.operand, body=b, orelse=a), stmts[0])
+                return ast.copy_location(ast.IfExp(test=t, body=a, orelse=b), stmts[0])
+        return None
+
+    class CallToExpr(ast.NodeTransformer):
+        def visit_Call(self, call):
+            self.generic_visit(call)
+            h = helper_of(call)
+            if h is None or not all(isinstance(a, (ast.Name, ast.Constant)) for a in call.args):
+                return call
+            body = copy.deepcopy(h.body)
+            if body and isinstance(body[0], ast.Expr) and isinstance(body[0].value, ast.Constant) \
+                    and isinstance(body[0].value.value, str):
+                body = body[1:]
+            params = [p.arg for p in h.args.args]
+            if any(isinstance(x, ast.Name) and isinstance(x.ctx, (ast.Store, ast.Del)) for b in body for x in ast.walk(b)) \
+                    or any(isinstance(x, (ast.NamedExpr, ast.ListComp, ast.SetComp, ast.DictComp, ast.GeneratorExp))
+                           for b in body for x in ast.walk(b)):
+                return call
+            hfree = {x.id for b in body for x in ast.walk(b) if isinstance(x, ast.Name)} - set(params)
+            if call.func.id in nested:
+                # the arguments must not mention a parameter name that is also free in the closure … (no capture: the
+                # substitution is simultaneous and does not revisit what it inserted) and the closure's free names must not
+                # be re-bound by the call's own evaluation: they are plain reads
+                pass
+            elif hfree & caller_locals:
+                return call
+            e = as_expr(body)
+            if e is None:
+                return call
+            return ast.copy_location(_Subst(dict(zip(params, call.args))).visit(e), call)
+
+    fnode = CallToExpr().visit(fnode)
+    # statement-level inlining concerns module-level helpers only
+    saved_nested = dict(nested)
+    nested.clear()
+    fnode.body = rewrite(fnode.body)
+    # a nested def all of whose calls were replaced is dropped (its definition has no effect of its own)
+    fnode.body = [b for b in fnode.body if not (isinstance(b, ast.FunctionDef) and b.name in saved_nested and not any(
+        isinstance(x, ast.Name) and x.id == b.name for x in ast.walk(fnode)))]
+    return fnode
+
+
+def _is_empty_list(n):
+    return isinstance(n, ast.List) and not n.elts
+
+
+def fission_partition_loops(fnode):
+    """A loop that partitions a sequence into two fresh lists is written as the two comprehensions:
+
+        P, Q = [], []                 (or `P = []` and `Q = []`, directly before the loop)
+        for x in k:                                           P = [eP for x in k if c]
+            if c: P.append(eP)              ->                Q = [eQ for x in k if not c]
+            else: Q.append(eQ)
+
+    where `k` is a plain name that the loop does not re-bind, `x` occurs nowhere in the function outside this loop (so
+    that its value after the loop is not observable), `P`, `Q` occur in none of `c`, `eP`, `eQ`, and one of `eP`, `eQ` is
+    the bare loop variable (so that at most one of the two element expressions can raise, and the exception the function
+    ends with is the same in both forms).  `c` is evaluated twice per element in the second form: the rule for a
+    comprehension condition accepts only conditions without effects (`pure_only`), so a `c` for which that matters makes
+    the function untranslatable, not wrongly translated."""
+    import copy
+
+    def names_in(n):
+        return {x.id for x in ast.walk(n) if isinstance(x, ast.Name)}
+
+    def rewrite(stmts):
+        out = []
+        for s in stmts:
+            for field in ("body", "orelse", "finalbody"):
+                if isinstance(getattr(s, field, None), list) and not isinstance(s, (ast.FunctionDef, ast.ClassDef, ast.Lambda)):
+                    setattr(s, field, rewrite(getattr(s, field)))
+            if isinstance(s, ast.Try):
+                for hd in s.handlers:
+                    hd.body = rewrite(hd.body)
+            done = False
+            if isinstance(s, ast.For) and not s.orelse and isinstance(s.target, ast.Name) and isinstance(s.iter, ast.Name) \
+                    and len(s.body) == 1 and isinstance(s.body[0], ast.If) and len(s.body[0].body) == 1 \
+                    and len(s.body[0].orelse) == 1:
+                x, k, br = s.target.id, s.iter.id, s.body[0]
+
+                def app(b):
+                    if isinstance(b, ast.Expr) and isinstance(b.value, ast.Call) and isinstance(b.value.func, ast.Attribute) \
+                            and b.value.func.attr == "append" and isinstance(b.value.func.value, ast.Name) \
+                            and len(b.value.args) == 1 and not b.value.keywords \
+                            and not isinstance(b.value.args[0], ast.Starred):
+                        return b.value.func.value.id, b.value.args[0]
+                    return None
+                a1, a2 = app(br.body[0]), app(br.orelse[0])
+                if a1 and a2 and a1[0] != a2[0]:
+                    (P, eP), (Q, eQ) = a1, a2
+                    inside = sum(1 for y in ast.walk(s) if isinstance(y, ast.Name) and y.id == x)
+                    total = sum(1 for y in ast.walk(fnode) if isinstance(y, ast.Name) and y.id == x)
+                    used = names_in(br.test) | names_in(eP) | names_in(eQ)
+                    bare = (isinstance(eP, ast.Name) and eP.id == x) or (isinstance(eQ, ast.Name) and eQ.id == x)
+                    # the initialisation directly before the loop
+                    ninit = 0
+                    if out and isinstance(out[-1], ast.Assign) and len(out[-1].targets) == 1 \
+                            and isinstance(out[-1].targets[0], ast.Tuple) and isinstance(out[-1].value, ast.Tuple) \
+                            and len(out[-1].value.elts) == 2 and all(_is_empty_list(v) for v in out[-1].value.elts) \
+                            and sorted(getattr(t, "id", None) or "" for t in out[-1].targets[0].elts) == sorted([P, Q]):
+                        ninit = 1
+                    elif len(out) >= 2 and all(isinstance(o, ast.Assign) and len(o.targets) == 1
+                                               and isinstance(o.targets[0], ast.Name) and _is_empty_list(o.value)
+                                               for o in out[-2:]) \
+                            and sorted(o.targets[0].id for o in out[-2:]) == sorted([P, Q]):
+                        ninit = 2
+                    # `k` is traversed twice in the second form: it must not be a one-shot iterator.  It is bound only as
+                    # the target of `for` loops (an element of what the loop iterates) or is a never re-bound parameter
+                    # (whose type the registry fixes) — never the result of a call such as `filter(…)` / a generator
+                    for_targets = {id(y) for f in ast.walk(fnode) if isinstance(f, ast.For) for y in ast.walk(f.target)}
+                    k_ok = all(id(y) in for_targets for y in _stores(fnode, k)) and (_stores(fnode, k) or k in _params(fnode))
+                    if ninit and k_ok and inside == total and bare and not ({P, Q, k} & {x}) and not ({P, Q} & (used | {k})) \
+                            and k != x and not _stores(s, k) and x not in _params(fnode):
+                        del out[-ninit:]
+                        for name, elt, test in ((P, eP, br.test),
+                                                (Q, eQ, ast.copy_location(ast.UnaryOp(op=ast.Not(), operand=br.test), br.test))):
+                            comp = ast.ListComp(elt=copy.deepcopy(elt), generators=[ast.comprehension(
+                                target=ast.Name(id=x, ctx=ast.Store()), iter=ast.Name(id=k, ctx=ast.Load()),
+                                ifs=[copy.deepcopy(test)], is_async=0)])
+                            out.append(ast.copy_location(ast.Assign(
+                                targets=[ast.Name(id=name, ctx=ast.Store())], value=comp), s))
+                        done = True
+            if not done:
+                out.append(s)
+        return out
+
+    fnode.body = rewrite(fnode.body)
+    ast.fix_missing_locations(fnode)
+    return fnode
+
+
+def setcomp_as_call(fnode):
+    """`{e for … in …}` -> `set(e for … in …)` (the rule for `set(...)` checks that the builtin is not rebound)"""
+    class SC(ast.NodeTransformer):
+        def visit_SetComp(self, n):
+            self.generic_visit(n)
+            return ast.copy_location(ast.Call(func=ast.copy_location(ast.Name(id="set", ctx=ast.Load()), n),
+                                              args=[ast.copy_location(ast.GeneratorExp(elt=n.elt, generators=n.generators), n)],
+                                              keywords=[]), n)
+    f = SC().visit(fnode)
+    ast.fix_missing_locations(f)
+    return f
+
+
+def expand_guarded_alias(fnode):
+    """A local that only caches the list stored under a key is written back as the lookups it stands for:
+
+        X = o.d.get(K)          (or `.get(K, [])`)                 if o.d.get(K, []):
+        if X:                                            ->            … o.d[K] …
+            … X …
+
+    where `o`, `K` are names the function never re-binds, `X` is stored only here and read only as this guard and inside
+    its body, there as `X.pop()` (a statement), as an `if` test (`X` / `not X`), as `X[…]` or `len(X)` (so the list never
+    escapes), the `if` has no else, and up to the last read of `X` the body contains no other call and no mention of `o.d`
+    (so that `o.d[K]` is the object `X` at every read: nothing can have re-bound or removed the entry).  `o.d.get(K)` is
+    `None` and `o.d.get(K, [])` is `[]` when the key is absent — both falsy; when present both are the stored object."""
+    import copy
+
+    def rewrite(stmts):
+        out = []
+        i = 0
+        while i < len(stmts):
+            s = stmts[i]
+            for field in ("body", "orelse", "finalbody"):
+                if isinstance(getattr(s, field, None), list) and not isinstance(s, (ast.FunctionDef, ast.ClassDef, ast.Lambda)):
+                    setattr(s, field, rewrite(getattr(s, field)))
+            nxt = stmts[i + 1] if i + 1 < len(stmts) else None
+            ok = False
+            if isinstance(s, ast.Assign) and len(s.targets) == 1 and isinstance(s.targets[0], ast.Name) \
+                    and isinstance(s.value, ast.Call) and isinstance(s.value.func, ast.Attribute) and s.value.func.attr == "get" \
+                    and not s.value.keywords and len(s.value.args) in (1, 2) and isinstance(s.value.args[0], ast.Name) \
+                    and (len(s.value.args) == 1 or _is_empty_list(s.value.args[1])) \
+                    and isinstance(s.value.func.value, ast.Attribute) and isinstance(s.value.func.value.value, ast.Name) \
+                    and isinstance(nxt, ast.If) and not nxt.orelse and isinstance(nxt.test, ast.Name):
+                X, K, d = s.targets[0].id, s.value.args[0].id, s.value.func.value
+                o = d.value.id
+                ddump = ast.dump(ast.Attribute(value=ast.Name(id=o, ctx=ast.Load()), attr=d.attr, ctx=ast.Load()))
+                if nxt.test.id == X and len(_stores(fnode, X)) == 1 and not _stores(fnode, K) and not _stores(fnode, o) \
+                        and X not in _params(fnode) and len({X, K, o}) == 3 and not _in_nested_scope(fnode, [X]):
+                    body_nodes = [y for b in nxt.body for y in ast.walk(b)]
+                    loads = [y for y in ast.walk(fnode) if isinstance(y, ast.Name) and y.id == X and isinstance(y.ctx, ast.Load)]
+                    inside = [y for y in body_nodes if isinstance(y, ast.Name) and y.id == X]
+                    if len(loads) == len(inside) + 1:
+                        # classify the reads of X in the body, in source order
+                        allowed = set()
+                        for y in body_nodes:
+                            if isinstance(y, ast.Expr) and isinstance(y.value, ast.Call) and isinstance(y.value.func, ast.Attribute) \
+                                    and y.value.func.attr == "pop" and not y.value.args and not y.value.keywords \
+                                    and isinstance(y.value.func.value, ast.Name) and y.value.func.value.id == X:
+                                allowed.add(id(y.value.func.value))
+                            if isinstance(y, ast.If):
+                                t = y.test.operand if isinstance(y.test, ast.UnaryOp) and isinstance(y.test.op, ast.Not) else y.test
+                                if isinstance(t, ast.Name) and t.id == X:
+                                    allowed.add(id(t))
+                            if isinstance(y, ast.Subscript) and isinstance(y.ctx, ast.Load) and isinstance(y.value, ast.Name) \
+                                    and y.value.id == X:
+                                allowed.add(id(y.value))
+                            if isinstance(y, ast.Call) and isinstance(y.func, ast.Name) and y.func.id == "len" \
+                                    and len(y.args) == 1 and isinstance(y.args[0], ast.Name) and y.args[0].id == X:
+                                allowed.add(id(y.args[0]))
+                        pos = lambda y: (getattr(y, "lineno", 0), getattr(y, "col_offset", 0))
+                        last = max([pos(y) for y in inside], default=(0, 0))
+                        early = [y for y in body_nodes if hasattr(y, "lineno") and pos(y) <= last]
+                        clean = all(id(y) in allowed for y in inside) \
+                            and not any(isinstance(y, ast.Attribute) and isinstance(y.value, ast.Name)
+                                        and ast.dump(ast.Attribute(value=ast.Name(id=y.value.id, ctx=ast.Load()), attr=y.attr,
+                                                                   ctx=ast.Load())) == ddump for y in early) \
+                            and not any(isinstance(y, ast.Call) and not (
+                                (isinstance(y.func, ast.Attribute) and isinstance(y.func.value, ast.Name) and y.func.value.id == X
+                                 and y.func.attr == "pop") or (isinstance(y.func, ast.Name) and y.func.id == "len")) for y in early) \
+                            and not any(isinstance(y, (ast.Yield, ast.YieldFrom, ast.Await, ast.Lambda, ast.FunctionDef))
+                                        for y in body_nodes)
+                        if clean and inside:
+                            def item():
+                                return ast.Subscript(value=ast.Attribute(value=ast.Name(id=o, ctx=ast.Load()), attr=d.attr,
+                                                                         ctx=ast.Load()),
+                                                     slice=ast.Name(id=K, ctx=ast.Load()), ctx=ast.Load())
+
+                            class R(ast.NodeTransformer):
+                                def visit_Name(self, n):
+                                    if n.id == X and isinstance(n.ctx, ast.Load):
+                                        return ast.copy_location(item(), n)
+                                    return n
+                            new_if = ast.If(test=ast.Call(func=ast.Attribute(value=copy.deepcopy(d), attr="get", ctx=ast.Load()),
+                                                          args=[ast.Name(id=K, ctx=ast.Load()), ast.List(elts=[], ctx=ast.Load())],
+                                                          keywords=[]),
+                                            body=[R().visit(b) for b in nxt.body], orelse=[])
+                            ast.copy_location(new_if, nxt)
+                            out.append(new_if)
+                            i += 2
+                            ok = True
+            if not ok:
+                out.append(s)
+                i += 1
+        return out
+
+    fnode.body = rewrite(fnode.body)
+    ast.fix_missing_locations(fnode)
+    return fnode
+
+
+def normalize_fn(fnode, entry, module_src=""):
+    import copy
+    f = copy.deepcopy(fnode)
+    for step in entry.get("normalize", ()):
+        if step == "helper":
+            f = inline_tail_helper(f, module_src, {e["func"] for e in T.REGISTRY if e["file"] == entry["file"]})
+            continue
+        if step == "pack":
+            prefer = [q for q, h in entry.get("typed", {}).items()
+                      if isinstance(res(PARAM_TYPES[h]()), TTuple) and len(res(PARAM_TYPES[h]()).elts) == 2]
+            f = pack_pairs(f, prefer)
+            continue
+        f = {"inline": inline_constant_locals, "pack": pack_pairs, "fission": fission_partition_loops,
+             "setcomp": setcomp_as_call, "alias": expand_guarded_alias}[step](f)
+    ast.fix_missing_locations(f)
+    return f
+
+
 class FnExt(T.Fn):
     def __init__(self, entry, module_src, fnode, done):
+        if entry.get("normalize"):
+            fnode = normalize_fn(fnode, entry, module_src)          # exact syntactic normalisations (see above)
         T.Fn.__init__(self, entry, module_src, fnode, done)
         self.loop_conts = []
 
@@ -154,6 +793,63 @@ class FnExt(T.Fn):
     def builtin(self, name, env, node):
         if name in env or name in self.module_names():
             raise Untranslatable("builtin %s is rebound" % name, node)
+
+    def is_sentinel(self, name, env):
+        """`name` is a module-private sentinel: bound at module level exactly once, by `name = object()`, and inside this
+        function only read as the default of `getattr(o, a, name)` or compared with `is` / `is not`"""
+        if name in env:
+            return False
+        tree = ast.parse(self.src)
+        binds = [s for s in tree.body if any(isinstance(x, ast.Name) and x.id == name and isinstance(x.ctx, (ast.Store, ast.Del))
+                                             for x in ast.walk(s))
+                 or (isinstance(s, (ast.FunctionDef, ast.ClassDef, ast.AsyncFunctionDef)) and s.name == name)
+                 or (isinstance(s, (ast.Import, ast.ImportFrom)) and any((a.asname or a.name).split(".")[0] == name for a in s.names))]
+        if len(binds) != 1:
+            return False
+        b = binds[0]
+        if not (isinstance(b, ast.Assign) and len(b.targets) == 1 and isinstance(b.targets[0], ast.Name)
+                and isinstance(b.value, ast.Call) and isinstance(b.value.func, ast.Name) and b.value.func.id == "object"
+                and not b.value.args and not b.value.keywords) or "object" in self.module_names():
+            return False
+        for f in ast.walk(tree):        # no function of the module re-binds it (global …) or stores it anywhere
+            if isinstance(f, (ast.Global, ast.Nonlocal)) and name in f.names:
+                return False
+        ok_uses = set()
+        for x in ast.walk(self.fnode):
+            if isinstance(x, ast.Call) and isinstance(x.func, ast.Name) and x.func.id == "getattr" and len(x.args) == 3 \
+                    and isinstance(x.args[2], ast.Name) and x.args[2].id == name:
+                ok_uses.add(id(x.args[2]))
+            if isinstance(x, ast.Compare) and len(x.ops) == 1 and isinstance(x.ops[0], (ast.Is, ast.IsNot)) \
+                    and isinstance(x.comparators[0], ast.Name) and x.comparators[0].id == name:
+                ok_uses.add(id(x.comparators[0]))
+        return all(id(x) in ok_uses for x in ast.walk(self.fnode) if isinstance(x, ast.Name) and x.id == name)
+
+    def if_(self, test, body, orelse, env, cont, ind, flow, node):
+        # `if X:` on a local that is None or a natural number: falsy when None and when 0
+        #    ==  if X is None: ELSE  else: (if X: BODY else: ELSE)       (X a number in the inner test)
+        if isinstance(test, ast.Name) and test.id in env and isinstance(res(env[test.id]), TOpt) \
+                and getattr(res(env[test.id]), "sentinel", None) is None and res(res(env[test.id]).elt) is NAT:
+            isnone = ast.Compare(left=ast.Name(id=test.id, ctx=ast.Load()), ops=[ast.Is()], comparators=[ast.Constant(value=None)])
+            inner = ast.If(test=test, body=body, orelse=orelse)
+            for x in (isnone, inner):
+                ast.copy_location(x, node)
+                ast.fix_missing_locations(x)
+            return T.Fn.if_(self, isnone, orelse, [inner], env, cont, ind, flow, node)
+        return T.Fn.if_(self, test, body, orelse, env, cont, ind, flow, node)
+
+    def narrowing(self, test, env):
+        """`X is S` / `X is not S` for a sentinel S on a local that holds `getattr(o, a, S)`: the sentinel is `none`.
+        (`X is None` on such a local is rejected: its `none` is not Python's None.)"""
+        if isinstance(test, ast.Compare) and len(test.ops) == 1 and isinstance(test.ops[0], (ast.Is, ast.IsNot)) \
+                and isinstance(test.left, ast.Name) and test.left.id in env:
+            t = res(env[test.left.id])
+            sent = getattr(t, "sentinel", None)
+            c = test.comparators[0]
+            if isinstance(c, ast.Name) and c.id not in env and sent is not None and c.id == sent:
+                return test.left.id, None, isinstance(test.ops[0], ast.IsNot)
+            if sent is not None:
+                raise Untranslatable("a value that may be the sentinel %s compared with something else" % sent, test)
+        return T.Fn.narrowing(self, test, env)
 
     def mutated(self, stmts):
         """names whose object is mutated by a method call / item statement in the statements, in source order"""
@@ -218,6 +914,13 @@ class FnExt(T.Fn):
             if key == "num_ancillas":
                 return self.bind("(pyInfoGetNum %s)" % info, NAT, n)
             raise Untranslatable("info[%r]" % key, n)
+        if isinstance(n, ast.Name) and n.id == "qv" and n.id not in env and isinstance(n.ctx, ast.Load):
+            self.need_module_alias("qubovert", "qv", n)
+            return "PyModule.top", MODULE                                   # the package itself, as a value
+        if isinstance(n, ast.Attribute) and n.attr == "utils" and isinstance(n.value, ast.Name) and n.value.id == "qv" \
+                and "qv" not in env and isinstance(n.ctx, ast.Load):
+            self.need_module_alias("qubovert", "qv", n)
+            return "PyModule.utils", MODULE                                 # qv.utils, as a value
         if isinstance(n, ast.Attribute) and isinstance(n.value, ast.Name) and n.value.id in env \
                 and res(env[n.value.id]) is MOBJ and n.attr == "name":
             return "(MObj.name %s)" % mangle(n.value.id), TOpt(STR)
@@ -287,7 +990,9 @@ class FnExt(T.Fn):
         if not frame:
             return T.Fn.comprehension(self, n, env)
         if g.ifs:
-            raise Untranslatable("filtered comprehension whose element may raise", n)
+            # `[e for x in l if c]`: the conditions (pure) select the elements first, `e` is evaluated on the selected ones
+            c = " ∧ ".join(self.pure_only(lambda i=i: self.cond(i, env2), "a comprehension condition", n) for i in g.ifs)
+            src = "(List.filter (fun (_py_it : %s) => %sdecide %s) %s)" % (lean_ty(et), lets, c, src)
         body = self.wrap(frame, "(Except.ok %s)" % e, "        ")
         return self.bind("(List.mapM (fun (_py_it : %s) => %s%s) %s)" % (lean_ty(et), lets, body, src), TList(te), n)
 
@@ -431,6 +1136,18 @@ class FnExt(T.Fn):
                 and n.args[0].id in env and res(env[n.args[0].id]) is MOBJ:
             self.builtin("dict", env, n)
             return "(MObj.terms %s)" % mangle(n.args[0].id), POLY             # dict(model): its terms
+        if isinstance(f, ast.Name) and f.id == "getattr" and len(n.args) == 3 and not n.keywords \
+                and isinstance(n.args[0], ast.Name) and n.args[0].id in env and res(env[n.args[0].id]) is MOBJ \
+                and isinstance(n.args[2], ast.Name) and self.is_sentinel(n.args[2].id, env):
+            # getattr(model, attr, S): the attribute when the object has it, else the sentinel S (read as `none`)
+            self.builtin("getattr", env, n)
+            sa, ta = self.expr(n.args[1], env)
+            if res(ta) is not STR:
+                raise Untranslatable("getattr with a non-string attribute name", n)
+            o = mangle(n.args[0].id)
+            ty = TOpt(INFOVAL)
+            ty.sentinel = n.args[2].id
+            return "(if (pyHasAttr %s %s) = true then some (pyGetAttr %s %s) else none)" % (o, sa, o, sa), ty
         if isinstance(f, ast.Name) and f.id in ("hasattr", "getattr") and len(n.args) == 2 and not n.keywords:
             self.builtin(f.id, env, n)
             o, a = n.args
@@ -441,6 +1158,11 @@ class FnExt(T.Fn):
                 if f.id == "hasattr":
                     return "(pyHasAttr %s %s)" % (mangle(o.id), sa), BOOL
                 return "(pyGetAttr %s %s)" % (mangle(o.id), sa), INFOVAL
+            if f.id == "getattr" and isinstance(o, ast.Name) and o.id in env and res(env[o.id]) is MODULE:
+                sa, ta = self.expr(a, env)
+                if res(ta) is not KINDT:
+                    raise Untranslatable("getattr(module, x) with x not a class name", n)
+                return "(pyModuleClass %s %s)" % (mangle(o.id), sa), KINDT      # the class named t, looked up in that module
             # getattr(qv.utils, t) / getattr(qv, t) / hasattr(qv.utils, t): the class named t
             mod = o.value if isinstance(o, ast.Attribute) and o.attr == "utils" else o
             if isinstance(mod, ast.Name) and mod.id == "qv" and mod.id not in env:
@@ -455,6 +1177,25 @@ class FnExt(T.Fn):
         if isinstance(f, ast.Name) and f.id in env and res(env[f.id]) is KINDT and len(n.args) == 1 and not n.keywords:
             a, ta = self.expr(n.args[0], env)
             return self.bind("(pyUConstruct %s %s)" % (mangle(f.id), coerce(a, ta, POLY, n)), MOBJ, n)     # cls(terms)
+        if isinstance(f, ast.Call) and isinstance(f.func, ast.Name) and f.func.id == "getattr" and len(n.args) == 1 \
+                and not n.keywords and not isinstance(n.args[0], ast.Starred):
+            c, tc = self.expr(f, env)                                      # the callee is evaluated first
+            if res(tc) is KINDT:
+                a, ta = self.expr(n.args[0], env)
+                return self.bind("(pyUConstruct %s %s)" % (c, coerce(a, ta, POLY, n)), MOBJ, n)            # getattr(m, t)(terms)
+            raise Untranslatable("call of getattr(…) that is not a class", n)
+        if isinstance(f, ast.Attribute) and f.attr == "get" and len(n.args) == 1 and not n.keywords \
+                and isinstance(f.value, ast.Name) and f.value.id in env and res(env[f.value.id]) is INFO \
+                and isinstance(n.args[0], ast.Constant):
+            # info.get(key): None when the key is absent (an optional key absent or None is `none` in the record Info)
+            key, info = n.args[0].value, mangle(f.value.id)
+            if key == "name":
+                return "(Info.name %s)" % info, TOpt(STR)
+            if key == "mapping":
+                return "(Info.mapping %s)" % info, TOpt(TDict(VAR, NAT))
+            if key == "num_ancillas":
+                return "(Info.numAncillas %s)" % info, TOpt(NAT)
+            raise Untranslatable("info.get(%r)" % (key,), n)
         if isinstance(f, ast.Attribute) and f.attr == "get" and len(n.args) == 2 and not n.keywords \
                 and isinstance(f.value, ast.Name) and f.value.id in env and res(env[f.value.id]) is INFO \
                 and isinstance(n.args[0], ast.Constant):
@@ -561,7 +1302,7 @@ class FnExt(T.Fn):
             raise Untranslatable("tuple() of this generator expression", n)
         if isinstance(f, ast.Name) and f.id == "tuple" and len(n.args) == 1 and not n.keywords:
             a, ta = self.expr(n.args[0], env)
-            if res(ta) is KEY:
+            if res(ta) is KEY or (isinstance(res(ta), TList) and not isinstance(res(ta), TDict) and res(res(ta).elt) is VAR):
                 self.builtin("tuple", env, n)
                 return a, KEY                                        # tuple(it) of labels: the same sequence
             return T.Fn.call(self, n, env)
@@ -589,12 +1330,22 @@ class FnExt(T.Fn):
                 if isinstance(res(ta), TList) and not isinstance(res(ta), TDict):
                     return "(pyUEnumerate %s)" % a, TList(TTuple([NAT, res(ta).elt]))
                 raise Untranslatable("enumerate of a %s" % lean_ty(ta), n)
+            if name == "zip" and len(args) == 2:
+                # zip(a, b) of two lists: the pairs of elements at equal positions, as many as the shorter list has
+                self.builtin(name, env, n)
+                (a, ta), (b, tb) = self.expr(args[0], env), self.expr(args[1], env)
+                ta, tb = res(ta), res(tb)
+                if isinstance(ta, TList) and isinstance(tb, TList) and not isinstance(ta, TDict) and not isinstance(tb, TDict):
+                    return "(List.zip %s %s)" % (a, b), TList(TTuple([ta.elt, tb.elt]))
+                raise Untranslatable("zip of a %s and a %s" % (lean_ty(ta), lean_ty(tb)), n)
             if name == "dict" and len(args) == 1:
                 self.builtin(name, env, n)
                 a, ta = self.expr(args[0], env)
                 ta = res(ta)
                 if isinstance(ta, TList) and isinstance(res(ta.elt), TTuple) and len(res(ta.elt).elts) == 2:
                     k, v = res(ta.elt).elts
+                    if res(k) is VAR and res(v) is RAT:
+                        return "(pyUDictOfPairs %s)" % a, BASSIGN          # a dict label -> number: an assignment
                     return "(pyUDictOfPairs %s)" % a, TDict(k, v)
                 raise Untranslatable("dict() of a %s" % lean_ty(ta), n)
         return T.Fn.call(self, n, env)
@@ -778,6 +1529,31 @@ class FnExt(T.Fn):
             self.pure_only(lambda: self.expr(c.args[1], env), "the default of pop", s)
             d = mangle(c.func.value.id)
             return "let %s : PyCont := (pyContPopDefault %s %s);\n%s%s" % (d, d, key, pad, cont(env))
+        # res.update((k, v) for x in src if c)   on an info dict (a builtin dict: `dict(type=…, …)`): the pairs are consumed
+        # one by one, each stored with res[k] = v before the next is produced  ==  for x in src: if c: res[k] = v
+        if isinstance(s, ast.Expr) and isinstance(s.value, ast.Call) and isinstance(s.value.func, ast.Attribute) \
+                and s.value.func.attr == "update" and isinstance(s.value.func.value, ast.Name) \
+                and s.value.func.value.id in env and res(env[s.value.func.value.id]) is INFO:
+            c = s.value
+            if len(c.args) != 1 or c.keywords or not isinstance(c.args[0], ast.GeneratorExp):
+                raise Untranslatable("dict.update with other than one generator expression", s)
+            g = self.one_generator(c.args[0])
+            elt = c.args[0].elt
+            if not (isinstance(elt, ast.Tuple) and len(elt.elts) == 2 and not any(isinstance(x, ast.Starred) for x in elt.elts)):
+                raise Untranslatable("dict.update with a generator of something else than pairs", s)
+            d = c.func.value.id
+            if any(isinstance(x, ast.Name) and x.id == d for x in ast.walk(c.args[0])):
+                raise Untranslatable("dict.update with a generator that reads the dict", s)
+            store = ast.Assign(targets=[ast.Subscript(value=ast.Name(id=d, ctx=ast.Load()), slice=elt.elts[0], ctx=ast.Store())],
+                               value=elt.elts[1])
+            body = [store]
+            if g.ifs:
+                test = g.ifs[0] if len(g.ifs) == 1 else ast.BoolOp(op=ast.And(), values=list(g.ifs))
+                body = [ast.If(test=test, body=[store], orelse=[])]
+            loop = ast.For(target=g.target, iter=g.iter, body=body, orelse=[])
+            ast.copy_location(loop, s)
+            ast.fix_missing_locations(loop)
+            return self.stmt([loop] + list(rest), env, k, ind, flow)
         # res[attr] = value   on an info dict
         if isinstance(s, ast.Assign) and len(s.targets) == 1 and isinstance(s.targets[0], ast.Subscript) \
                 and isinstance(s.targets[0].value, ast.Name) and s.targets[0].value.id in env \
@@ -913,6 +1689,12 @@ class FnExt(T.Fn):
                             and b.targets[0].id == x and not any(isinstance(y, ast.Name) and y.id == x for y in ast.walk(b.value)):
                         seen = True
                         break
+                    if isinstance(b, ast.Assign) and len(b.targets) == 1 and isinstance(b.targets[0], ast.Tuple) \
+                            and all(isinstance(y, ast.Name) for y in b.targets[0].elts) \
+                            and x in [y.id for y in b.targets[0].elts] \
+                            and not any(isinstance(y, ast.Name) and y.id in names for y in ast.walk(b.value)):
+                        seen = True          # `a, b = e1, e2` with the right-hand side reading none of the try body's locals
+                        break
                     if any(isinstance(y, ast.Name) and y.id == x for y in ast.walk(b)):
                         break
                 if not seen:
@@ -1024,7 +1806,7 @@ BRUTE_NOT = ["`value(x, D)` and `valid(x)` are calls of the function parameters 
 REGISTRY = [
     dict(BRUTE_COMMON, file=BF, func="_solve_bruteforce", lean="solve_bruteforce_whole",
          params=[("D", "BModel"), ("all_solutions", "Bool"), ("valid", "ValidFn"), ("spin", "Bool"), ("value", "ValueFn")],
-         defaults={}, returns="BruteRet", mutates=["D"], join_points=True,
+         defaults={}, returns="BruteRet", mutates=["D"], join_points=True, normalize=("inline", "pack", "helper"),
          extra_theorems=["scanOrder_setOrder", "methods_eq_solveMethod"], typed={"best": "BestHint", "all_sols": "AllSols"},
          not_translated=BRUTE_NOT),
 ]
@@ -1053,10 +1835,11 @@ SG_NOT = ["the argument `G` is the record PyRawCont (its type and its items; a n
 REGISTRY += [
     dict(file=SG, func="subgraph", lean="subgraph_fn", unit="Subgraph", group="Subgraph", props=["C18"], monadic=True,
          params=[("G", "RawCont"), ("nodes", "VarSet"), ("connections", "OptAssoc")], defaults={"connections": "None"},
-         typed={"connections": "Assoc"}, returns="Cont", extra_theorems=["subgraph_fn_on_dict"], not_translated=SG_NOT),
+         typed={"connections": "Assoc"}, returns="Cont", extra_theorems=["subgraph_fn_on_dict"], not_translated=SG_NOT,
+         normalize=("helper", "fission")),
     dict(file=SG, func="subvalue", lean="subvalue_fn", unit="Subgraph", group="Subgraph", props=["C18"], monadic=True,
          params=[("values", "Assoc"), ("G", "RawCont")], defaults={}, returns="Cont", extra_theorems=["subvalue_fn_on_dict"],
-         not_translated=SG_NOT),
+         not_translated=SG_NOT, normalize=("helper", "fission")),
 ]
 
 DA_FILE = "qubovert/utils/_dict_arithmetic.py"
@@ -1082,7 +1865,8 @@ INFO_NOT = ["the model object is the record Qv.MObj (kind = class name, terms, n
             "(pyUConstruct, pyAddConstraintLam0) are read from the model"]
 REGISTRY += [
     dict(file=INFO_FILE, func="get_info", lean="get_info_fn", unit="InfoRT", group="InfoRT", props=["C19"], monadic=True,
-         params=[("model", "MObj")], defaults={}, returns="Info", extra_theorems=["getInfo_wf"], not_translated=INFO_NOT),
+         params=[("model", "MObj")], defaults={}, returns="Info", extra_theorems=["getInfo_wf"], not_translated=INFO_NOT,
+         normalize=("inline",)),
     dict(file=INFO_FILE, func="create_from_info", lean="create_from_info_fn", unit="InfoRT", group="InfoRT", props=["C19"],
          monadic=True, params=[("info", "Info")], defaults={}, returns="MObj", join_points=True, not_translated=INFO_NOT),
 ]
